@@ -82,18 +82,6 @@ Definition fa_step (acc : list str) (l : str) : list str := if mem l acc then ac
 Lemma first_appearance_unfold : forall ls, first_appearance ls = fold_left fa_step ls [].
 Proof. reflexivity. Qed.
 
-Lemma dfxp_read_keys : forall default tt (divs : list (option str * list cue)) (d : capset),
-  map fst (fold_left (fun d dv => dict_set (div_lang (fst dv) tt default) (snd dv) d) divs d)
-  = fold_left fa_step (map (fun dv => div_lang (fst dv) tt default) divs) (map fst d).
-Proof.
-  induction divs as [|dv t IH]; intros d; [reflexivity|]. cbn [fold_left map]. rewrite IH, dict_set_keys. reflexivity.
-Qed.
-
-(* languages are listed in order of first appearance - every document, duplicated languages included *)
-Theorem dfxp_read_order : forall default doc,
-  languages (dfxp_read default doc) = first_appearance (effs default doc).
-Proof. intros. unfold languages, dfxp_read, effs. rewrite dfxp_read_keys. reflexivity. Qed.
-
 Lemma fa_fold_spec : forall ls acc, NoDup acc ->
   NoDup (fold_left fa_step ls acc) /\ (forall x, In x (fold_left fa_step ls acc) <-> In x acc \/ In x ls).
 Proof.
@@ -114,26 +102,6 @@ Proof.
   intros x. rewrite first_appearance_unfold, B. simpl. tauto.
 Qed.
 
-Lemma dfxp_read_distinct_gen : forall default tt (divs : list (option str * list cue)) (d : capset),
-  NoDup (map fst d ++ map (fun dv => div_lang (fst dv) tt default) divs) ->
-  fold_left (fun d dv => dict_set (div_lang (fst dv) tt default) (snd dv) d) divs d
-  = d ++ map (fun dv => (div_lang (fst dv) tt default, snd dv)) divs.
-Proof.
-  induction divs as [|dv t IH]; intros d N; cbn [fold_left map]; [rewrite app_nil_r; reflexivity|].
-  cbn [map] in N. pose proof (NoDup_remove_2 _ _ _ N) as F.
-  assert (M : mem (div_lang (fst dv) tt default) (map fst d) = false).
-  { apply mem_false. intros C. apply F. apply in_app_iff. left. exact C. }
-  rewrite dict_set_fresh by exact M. rewrite IH.
-  - rewrite <- app_assoc. reflexivity.
-  - rewrite map_app. cbn [map fst]. rewrite <- app_assoc. exact N.
-Qed.
-
-(* with distinct effective languages: one language per div, in document order, each with exactly its div's cues *)
-Theorem dfxp_read_distinct : forall default doc, NoDup (effs default doc) ->
-  dfxp_read default doc = map (fun dv => (div_lang (fst dv) (d_tt doc) default, snd dv)) (d_divs doc).
-Proof. intros default doc N. unfold dfxp_read. rewrite dfxp_read_distinct_gen; [reflexivity|exact N]. Qed.
-
-(* the model meets the property oracle on its whole domain *)
 Lemma list_eqb_refl : forall (A : Type) (e : A -> A -> bool) l, (forall x, e x x = true) -> list_eqb e l l = true.
 Proof. induction l; intros H; simpl; auto. rewrite H. auto. Qed.
 Lemma cue_eqb_refl : forall c, cue_eqb c c = true.
@@ -141,24 +109,6 @@ Proof. intros [s t]. unfold cue_eqb. cbn [fst snd]. rewrite Z.eqb_refl, str_eqb_
 Lemma lang_eqb_refl : forall c, lang_eqb c c = true.
 Proof. intros [l cs]. unfold lang_eqb. cbn [fst snd]. rewrite str_eqb_refl', list_eqb_refl by apply cue_eqb_refl. reflexivity. Qed.
 
-Lemma nodupb_NoDup : forall ls, nodupb ls = true -> NoDup ls.
-Proof.
-  induction ls as [|l t IH]; intros H; [constructor|]. simpl in H. apply andb_prop in H. destruct H as [H1 H2].
-  constructor; [|apply IH; exact H2]. intros C. apply mem_In in C. unfold mem in C. unfold smem in H1. rewrite C in H1. discriminate.
-Qed.
-
-Theorem dfxp_read_meets_oracle : forall default tt divs,
-  dom_dfxp_read default tt divs = true ->
-  ok_dfxp_read default tt divs (dfxp_read default (mkDfxp tt divs)) = true.
-Proof.
-  intros default tt divs D. unfold dom_dfxp_read in D. apply nodupb_NoDup in D.
-  rewrite dfxp_read_distinct.
-  - unfold ok_dfxp_read. cbn [d_tt d_divs]. apply list_eqb_refl. apply lang_eqb_refl.
-  - unfold effs. cbn [d_tt d_divs].
-    erewrite map_ext; [exact D|]. intros [o c]. cbn [fst]. destruct (dfxp_lang_of_div o tt default) as [_ E]. exact E.
-Qed.
-
-(* ---- DFXP write ------------------------------------------------------------------------------------------ *)
 Lemma get_captions_nodup : forall cs l c, NoDup (languages cs) -> In (l, c) cs -> get_captions cs l = c.
 Proof. intros cs l c N H. unfold get_captions. rewrite (dict_get_nodup _ cs l c N H). reflexivity. Qed.
 
@@ -169,6 +119,129 @@ Proof.
   intros [l c] H. cbn [fst]. f_equal. apply get_captions_nodup; assumption.
 Qed.
 
+(* ---- grouping: the model's fold equals the specification's grouping --------------------------------------- *)
+Lemma filter_filter : forall (A : Type) (p q : A -> bool) l, filter p (filter q l) = filter (fun x => q x && p x) l.
+Proof. induction l as [|x t IH]; [reflexivity|]. cbn [filter]. destruct (q x); cbn [filter andb]; [destruct (p x)|]; rewrite IH; reflexivity. Qed.
+
+Lemma filter_true : forall (A : Type) (l : list A), filter (fun _ => true) l = l.
+Proof. induction l as [|x t IH]; [reflexivity|]. cbn [filter]. rewrite IH. reflexivity. Qed.
+
+(* order of first appearance, pinned down: first_appearance is the specification's `uniq` (keep first occurrences) *)
+Lemma fa_fold_uniq : forall ls acc,
+  fold_left fa_step ls acc = acc ++ filter (fun x => negb (mem x acc)) (uniq ls).
+Proof.
+  induction ls as [|l t IH]; intros acc; cbn [fold_left uniq filter]; [rewrite app_nil_r; reflexivity|].
+  unfold fa_step at 2. destruct (mem l acc) eqn:M; cbn [negb].
+  - rewrite IH. f_equal. rewrite filter_filter. apply filter_ext_in. intros x _.
+    destruct (str_eqb x l) eqn:E; cbn [negb andb]; [|reflexivity]. apply str_eqb_eq in E. subst. rewrite M. reflexivity.
+  - rewrite IH, <- app_assoc. cbn [app]. f_equal. f_equal. rewrite filter_filter. apply filter_ext_in. intros x _.
+    unfold mem. rewrite existsb_app. cbn [existsb]. rewrite orb_false_r, negb_orb, andb_comm. reflexivity.
+Qed.
+Theorem first_appearance_uniq : forall ls, first_appearance ls = uniq ls.
+Proof.
+  intros ls. rewrite first_appearance_unfold, fa_fold_uniq. cbn [app].
+  transitivity (filter (fun _ : str => true) (uniq ls)); [apply filter_ext; reflexivity|apply filter_true].
+Qed.
+
+Lemma dict_extend_keys : forall k v d,
+  map fst (dict_extend k v d) = if mem k (map fst d) then map fst d else map fst d ++ [k].
+Proof.
+  induction d as [|[k' v'] t IH]; [reflexivity|]. cbn [dict_extend map fst mem existsb].
+  destruct (str_eqb k' k) eqn:E.
+  - apply str_eqb_eq in E. subst. rewrite str_eqb_refl'. reflexivity.
+  - assert (E' : str_eqb k k' = false) by (apply str_eqb_neq; apply str_eqb_neq in E; congruence).
+    rewrite E'. cbn [orb map fst]. rewrite IH. unfold mem. destruct (existsb (str_eqb k) (map fst t)); reflexivity.
+Qed.
+Lemma dict_extend_get : forall k v d l,
+  get_captions (dict_extend k v d) l = if str_eqb k l then get_captions d l ++ v else get_captions d l.
+Proof.
+  unfold get_captions. induction d as [|[k' v'] t IH]; intros l; cbn [dict_extend dict_get].
+  - destruct (str_eqb k l); reflexivity.
+  - destruct (str_eqb k' k) eqn:E; cbn [dict_get].
+    + apply str_eqb_eq in E. subst. destruct (str_eqb k l); reflexivity.
+    + destruct (str_eqb k' l) eqn:E2.
+      * assert (E3 : str_eqb k l = false).
+        { apply str_eqb_neq. intros C. subst. apply str_eqb_eq in E2. subst. rewrite str_eqb_refl' in E. discriminate. }
+        rewrite E3. reflexivity.
+      * apply IH.
+Qed.
+
+Definition div_step (default : str) (tt : option str) (d : capset) (dv : option str * list cue) : capset :=
+  dict_extend (div_lang (fst dv) tt default) (snd dv) d.
+
+Lemma dfxp_fold_keys : forall default tt divs d,
+  map fst (fold_left (div_step default tt) divs d)
+  = fold_left fa_step (map (fun dv => div_lang (fst dv) tt default) divs) (map fst d).
+Proof.
+  induction divs as [|dv t IH]; intros d; [reflexivity|]. cbn [fold_left map]. rewrite IH. unfold div_step.
+  rewrite dict_extend_keys. reflexivity.
+Qed.
+Lemma dfxp_fold_get : forall default tt divs d l,
+  get_captions (fold_left (div_step default tt) divs d) l
+  = get_captions d l ++ flat_map snd (filter (fun dv => str_eqb (div_lang (fst dv) tt default) l) divs).
+Proof.
+  induction divs as [|dv t IH]; intros d l; cbn [fold_left filter flat_map]; [rewrite app_nil_r; reflexivity|].
+  rewrite IH. unfold div_step. rewrite dict_extend_get.
+  destruct (str_eqb (div_lang (fst dv) tt default) l); cbn [flat_map]; rewrite <- ?app_assoc; reflexivity.
+Qed.
+
+Lemma flat_map_filter_map : forall (A : Type) (f : A -> str) (g : A -> list cue) l (xs : list A),
+  flat_map snd (filter (fun t : str * list cue => str_eqb (fst t) l) (map (fun x => (f x, g x)) xs))
+  = flat_map g (filter (fun x => str_eqb (f x) l) xs).
+Proof.
+  induction xs as [|x t IH]; [reflexivity|]. cbn [map filter fst]. destruct (str_eqb (f x) l); cbn [flat_map snd]; rewrite IH; reflexivity.
+Qed.
+
+(* DFXPReader model = the specification's grouping, for EVERY document: languages in order of first appearance; a
+   language met again (a further div, a nested div) continues its list; no cue lost, none listed twice *)
+Theorem dfxp_read_groups : forall default doc,
+  dfxp_read default doc
+  = spec_group (map (fun dv => (effective_lang (fst dv) (d_tt doc) default, snd dv)) (d_divs doc)).
+Proof.
+  intros default doc. unfold dfxp_read. change (fun d dv => dict_extend (div_lang (fst dv) (d_tt doc) default) (snd dv) d)
+    with (div_step default (d_tt doc)).
+  set (r := fold_left (div_step default (d_tt doc)) (d_divs doc) []).
+  assert (K : map fst r = uniq (map (fun dv => div_lang (fst dv) (d_tt doc) default) (d_divs doc))).
+  { unfold r. rewrite dfxp_fold_keys. cbn [map]. rewrite <- first_appearance_unfold. apply first_appearance_uniq. }
+  assert (N : NoDup (languages r)).
+  { unfold languages. rewrite K, <- first_appearance_uniq. apply first_appearance_spec. }
+  rewrite <- (map_get_all r N). unfold languages. rewrite K. unfold spec_group. rewrite map_map. cbn [fst].
+  assert (Eff : forall dv : option str * list cue, effective_lang (fst dv) (d_tt doc) default = div_lang (fst dv) (d_tt doc) default).
+  { intros [o c]. cbn [fst]. destruct o, (d_tt doc); reflexivity. }
+  assert (M : map (fun dv : option str * list cue => effective_lang (fst dv) (d_tt doc) default) (d_divs doc)
+              = map (fun dv => div_lang (fst dv) (d_tt doc) default) (d_divs doc)) by (apply map_ext; exact Eff).
+  rewrite M. apply map_ext. intros l. f_equal.
+  unfold r. rewrite dfxp_fold_get. cbn [get_captions dict_get app].
+  rewrite (flat_map_filter_map _ (fun dv => effective_lang (fst dv) (d_tt doc) default) snd).
+  reflexivity.
+Qed.
+
+Lemma sset_eqb_refl : forall s, sset_eqb s s = true.
+Proof. intros. apply list_eqb_refl. apply lang_eqb_refl. Qed.
+
+(* the model meets the oracle on every document *)
+Theorem dfxp_read_meets_oracle : forall default tt divs,
+  ok_dfxp_read default tt divs (dfxp_read default (mkDfxp tt divs)) = true.
+Proof. intros. unfold ok_dfxp_read. rewrite dfxp_read_groups. apply sset_eqb_refl. Qed.
+
+(* the body tree: the tree read is the grouping of the segments (flatten_body), for every tree *)
+Theorem dfxp_read_tree_groups : forall default tt nodes,
+  dfxp_read_tree default tt nodes
+  = spec_group (map (fun dv => (effective_lang (fst dv) tt default, snd dv)) (flatten_body nodes)).
+Proof. intros. exact (dfxp_read_groups default (mkDfxp tt (flatten_body nodes))). Qed.
+Theorem dfxp_read_tree_meets_oracle : forall default tt nodes,
+  ok_dfxp_read default tt (flatten_body nodes) (dfxp_read_tree default tt nodes) = true.
+Proof. intros. apply dfxp_read_meets_oracle. Qed.
+
+Theorem dfxp_read_order : forall default doc,
+  languages (dfxp_read default doc) = first_appearance (effs default doc).
+Proof.
+  intros. unfold languages, dfxp_read, effs.
+  change (fun d dv => dict_extend (div_lang (fst dv) (d_tt doc) default) (snd dv) d) with (div_step default (d_tt doc)).
+  rewrite dfxp_fold_keys. reflexivity.
+Qed.
+
+(* ---- DFXP write ------------------------------------------------------------------------------------------ *)
 Theorem dfxp_write_order : forall force cs, mem force (languages cs) = false ->
   d_divs (dfxp_write force cs) = map (fun l => (Some l, get_captions cs l)) (languages cs).
 Proof. intros force cs H. unfold dfxp_write. rewrite H. reflexivity. Qed.
@@ -182,18 +255,47 @@ Proof.
   intros N. destruct force as [|c f]; [congruence|reflexivity].
 Qed.
 
+
+(* writing and reading back: the same languages in the same order with the same cue lists *)
+Lemma uniq_nodup_id : forall ls, NoDup ls -> uniq ls = ls.
+Proof.
+  induction ls as [|l t IH]; intros N; [reflexivity|]. inversion N; subst. cbn [uniq]. rewrite IH by assumption. f_equal.
+  rewrite <- (filter_true _ t) at 2. apply filter_ext_in.
+  intros x Hx. destruct (str_eqb x l) eqn:E; [apply str_eqb_eq in E; subst; contradiction|reflexivity].
+Qed.
+
+Lemma single_filter : forall (g : str -> list cue) ls l, NoDup ls -> In l ls ->
+  flat_map g (filter (fun x => str_eqb x l) ls) = g l.
+Proof.
+  induction ls as [|x t IH]; intros l N H; [destruct H|]. inversion N; subst. cbn [filter].
+  destruct (str_eqb x l) eqn:E.
+  - apply str_eqb_eq in E. subst. cbn [flat_map].
+    assert (Z0 : filter (fun x => str_eqb x l) t = []).
+    { clear IH H N. induction t as [|y r IHr]; [reflexivity|]. cbn [filter].
+      destruct (str_eqb y l) eqn:E; [apply str_eqb_eq in E; subst; exfalso; apply H2; left; reflexivity|].
+      apply IHr; [intros C; apply H2; right; exact C|inversion H3; assumption]. }
+    rewrite Z0. cbn [flat_map]. apply app_nil_r.
+  - apply IH; [assumption|]. destruct H as [H|H]; [subst; rewrite str_eqb_refl' in E; discriminate|exact H].
+Qed.
+
 (* writing and reading back: the same languages in the same order with the same cue lists *)
 Theorem dfxp_roundtrip_langs : forall default cs, NoDup (languages cs) -> mem [] (languages cs) = false ->
   dfxp_read default (dfxp_write [] cs) = cs.
 Proof.
-  intros default cs N H. rewrite dfxp_read_distinct.
-  - unfold dfxp_write. rewrite H. cbn [d_divs d_tt]. rewrite map_map. cbn [fst snd div_lang].
-    apply map_get_all. exact N.
-  - unfold effs, dfxp_write. rewrite H. cbn [d_divs d_tt]. rewrite map_map. cbn [fst div_lang]. rewrite map_id. exact N.
+  intros default cs N H. rewrite dfxp_read_groups. unfold dfxp_write. rewrite H. cbn [d_divs d_tt].
+  rewrite map_map. cbn [fst snd effective_lang]. unfold spec_group. rewrite map_map. cbn [fst]. rewrite map_id.
+  fold (languages cs). rewrite (uniq_nodup_id _ N).
+  transitivity (map (fun l => (l, get_captions cs l)) (languages cs)); [|apply map_get_all; exact N].
+  apply map_ext_in. intros l Hl. f_equal.
+  rewrite (flat_map_filter_map _ (fun l0 => l0) (get_captions cs)).
+  apply single_filter; assumption.
 Qed.
 Theorem dfxp_roundtrip_force : forall default force cs, mem force (languages cs) = true ->
   dfxp_read default (dfxp_write force cs) = [(force, get_captions cs force)].
-Proof. intros default force cs H. destruct (force_selects force cs H) as [E _]. rewrite E. reflexivity. Qed.
+Proof.
+  intros default force cs H. destruct (force_selects force cs H) as [E _]. rewrite E. unfold dfxp_read. cbn [d_divs d_tt fold_left fst snd div_lang dict_extend].
+  reflexivity.
+Qed.
 
 (* ---- WebVTT lang= --------------------------------------------------------------------------------------- *)
 Theorem vtt_lang_option : forall l cs c, NoDup (languages cs) -> In (l, c) cs -> vtt_select (Some l) cs = Ok c.
@@ -303,20 +405,6 @@ Proof.
   rewrite E. apply lang_count_total; [exact N|]. intros p Hp. apply M. apply in_map. exact Hp.
 Qed.
 
-(* the model meets the oracle *)
-Theorem sami_prefix_selection_refuted :
-  exists default styles ps l1 l2 c,
-    l1 <> l2 /\ In c (get_captions (sami_read_prefix default styles ps) l1)
-             /\ In c (get_captions (sami_read_prefix default styles ps) l2)
-             /\ ~ In c (get_captions (sami_read default styles ps) l1).
-Proof.
-  exists (lit "und"), [(lit "encc", Some (lit "en")); (lit "uscc", Some (lit "en-US"))],
-         [mkP [(lit "class", lit "ENCC")] 1000 (lit "short"); mkP [(lit "class", lit "USCC")] 1000 (lit "long")],
-         (lit "en"), (lit "en-US"), (1000000, lit "long").
-  split; [discriminate|]. split; [vm_compute; auto|]. split; [vm_compute; auto|].
-  vm_compute. intros [H|[]]. discriminate.
-Qed.
-
 (* ---- _find_lang: a class that declares no language (or is unknown) does not end the lookup ---------------------- *)
 Theorem find_lang_class_falls_through : forall name value rest styles,
   str_eqb (lower name) (lit "lang") = false -> str_eqb (lower name) (lit "class") = true ->
@@ -332,3 +420,203 @@ Theorem find_lang_class_with_lang : forall name value l rest styles,
   str_eqb (lower name) (lit "lang") = false -> str_eqb (lower name) (lit "class") = true ->
   dict_get (lower value) styles = Some (Some l) -> find_lang ((name, value) :: rest) styles = Some l.
 Proof. intros name value l rest styles H1 H2 H3. cbn [find_lang]. rewrite H1, H2, H3. reflexivity. Qed.
+
+(* ---- the models meet the oracles (wave 3) ------------------------------------------------------------------- *)
+(* SAMI read: the model equals the specification's grouping of the tagged paragraphs, blank paragraphs counting for
+   the order of languages only - for every document *)
+Definition sami_tagged (default : str) (styles : sami_styles) (ps : list sami_p) : list (str * scue * bool) :=
+  map (fun p => (tag_of default styles p, (sp_start p * 1000, sp_text p), is_blank_text (sp_text p))) ps.
+
+Theorem sami_read_groups : forall default styles ps,
+  sami_read default styles ps
+  = spec_group (map (fun t : str * scue * bool => (fst (fst t), if snd t then @nil scue else [snd (fst t)]))
+                    (sami_tagged default styles ps)).
+Proof.
+  intros default styles ps. unfold sami_read, spec_group, sami_tagged. rewrite !map_map. cbn [fst snd].
+  rewrite first_appearance_uniq. unfold tag_of. apply map_ext. intros l. f_equal.
+  induction ps as [|p t IH]; [reflexivity|]. cbn [map filter fst snd].
+  destruct (str_eqb (p_lang default (sp_attrs p) styles) l); cbn [andb flat_map snd]; [|exact IH].
+  destruct (is_blank_text (sp_text p)); cbn [negb map app]; rewrite IH; reflexivity.
+Qed.
+
+Theorem sami_read_meets_oracle : forall default styles ps,
+  ok_sami_read (sami_tagged default styles ps) (sami_read default styles ps) = true.
+Proof. intros. unfold ok_sami_read. rewrite sami_read_groups. apply sset_eqb_refl. Qed.
+
+(* DFXP write: the divs written, as (language, cues) *)
+Definition doc_sset (d : dfxp_doc) : sset :=
+  map (fun dv => (match fst dv with Some l => l | None => [] end, snd dv)) (d_divs d).
+
+Lemma subseq_refl : forall cs, subseq cs cs = true.
+Proof. induction cs as [|c t IH]; [reflexivity|]. cbn [subseq]. rewrite lang_eqb_refl. exact IH. Qed.
+Lemma subseq_nil : forall cs, subseq [] cs = true.
+Proof. destruct cs; reflexivity. Qed.
+Lemma subseq_single : forall cs l c, NoDup (languages cs) -> In (l, c) cs -> subseq [(l, c)] cs = true.
+Proof.
+  induction cs as [|x t IH]; intros l c N H; [destruct H|]. cbn [subseq]. destruct (lang_eqb (l, c) x) eqn:E; [apply subseq_nil|].
+  destruct H as [H|H]; [subst; rewrite lang_eqb_refl in E; discriminate|].
+  inversion N; subst. apply IH; assumption.
+Qed.
+Lemma get_in : forall cs l, NoDup (languages cs) -> mem l (languages cs) = true -> In (l, get_captions cs l) cs.
+Proof.
+  intros cs l N H. apply mem_In in H. unfold languages in H. apply in_map_iff in H. destruct H as [[k c] [E H]].
+  cbn [fst] in E. subst k. rewrite (get_captions_nodup cs l c N H). exact H.
+Qed.
+Lemma doc_sset_all : forall cs tt, NoDup (languages cs) ->
+  doc_sset (mkDfxp tt (map (fun l => (Some l, get_captions cs l)) (languages cs))) = cs.
+Proof. intros cs tt N. unfold doc_sset. cbn [d_divs]. rewrite map_map. cbn [fst snd]. apply map_get_all. exact N. Qed.
+
+Theorem dfxp_write_meets_oracle : forall force cs, NoDup (languages cs) ->
+  ok_dfxp_write force cs (doc_sset (dfxp_write force cs)) = true.
+Proof.
+  intros force cs N. unfold ok_dfxp_write.
+  change (smem force (map fst cs)) with (mem force (languages cs)).
+  destruct (mem force (languages cs)) eqn:M.
+  - destruct (force_selects force cs M) as [E _]. rewrite E. unfold doc_sset. cbn [d_divs map fst snd].
+    apply andb_true_intro. split; [apply (subseq_single cs force _ N (get_in cs force N M))|apply str_eqb_refl'].
+  - unfold dfxp_write. rewrite M, (doc_sset_all cs _ N), subseq_refl. destruct force; [apply sset_eqb_refl|reflexivity].
+Qed.
+
+(* legacy writer: `if force:` - an empty force writes every language; an absent one the last language *)
+Theorem legacy_write_meets_oracle : forall force cs d, NoDup (languages cs) -> mem [] (languages cs) = false ->
+  legacy_write force cs = Ok d -> ok_dfxp_write force cs (doc_sset d) = true.
+Proof.
+  intros force cs d N E0 H. unfold legacy_write in H. unfold ok_dfxp_write.
+  change (smem force (map fst cs)) with (mem force (languages cs)).
+  destruct force as [|c0 f].
+  - cbn [bind] in H. inversion H; subst d. rewrite (doc_sset_all cs _ N), subseq_refl, E0.
+    apply sset_eqb_refl.
+  - destruct (mem (c0 :: f) (languages cs)) eqn:M.
+    + cbn [bind] in H. inversion H; subst d. unfold doc_sset. cbn [d_divs map fst snd].
+      apply andb_true_intro. split; [apply (subseq_single cs (c0 :: f) _ N (get_in cs (c0 :: f) N M))|apply str_eqb_refl'].
+    + destruct (rev (languages cs)) as [|l r] eqn:R; [discriminate|]. cbn [bind] in H. inversion H; subst d.
+      unfold doc_sset. cbn [d_divs map fst snd]. rewrite andb_true_r.
+      apply subseq_single; [exact N|]. apply get_in; [exact N|]. apply mem_In. apply in_rev. rewrite R. left. reflexivity.
+Qed.
+
+(* language pick (WebVTT lang=) *)
+Theorem vtt_select_meets_oracle : forall lang cs obs, NoDup (languages cs) -> vtt_select lang cs = Ok obs ->
+  ok_pick lang cs obs = true.
+Proof.
+  intros lang cs obs N H. unfold vtt_select in H. unfold ok_pick. destruct lang as [l|].
+  - inversion H; subst obs. clear H. unfold get_captions.
+    induction cs as [|[k c] t IH]; [reflexivity|]. cbn [filter fst dict_get]. inversion N; subst.
+    destruct (str_eqb k l) eqn:E.
+    + cbn [snd]. apply list_eqb_refl. apply cue_eqb_refl.
+    + apply IH. assumption.
+  - destruct cs as [|[l c] t]; [discriminate|]. inversion H; subst obs. unfold get_captions. cbn [dict_get snd].
+    rewrite str_eqb_refl'. apply list_eqb_refl. apply cue_eqb_refl.
+Qed.
+
+(* ---- the class layer of the SAMI writer: the class written on a paragraph resolves to its language ------------- *)
+Lemma dict_get_app : forall (V : Type) c (a b : list (str * V)),
+  dict_get c (a ++ b) = match dict_get c a with Some v => Some v | None => dict_get c b end.
+Proof. induction a as [|[k v] t IH]; intros b; [reflexivity|]. cbn [app dict_get]. destruct (str_eqb k c); [reflexivity|apply IH]. Qed.
+
+Lemma dict_get_notin : forall (V : Type) c (d : list (str * V)), ~ In c (map fst d) -> dict_get c d = None.
+Proof.
+  induction d as [|[k v] t IH]; intros H; [reflexivity|]. cbn [dict_get]. destruct (str_eqb k c) eqn:E.
+  - apply str_eqb_eq in E. subst. exfalso. apply H. left. reflexivity.
+  - apply IH. intros C. apply H. right. exact C.
+Qed.
+Lemma dict_get_rev : forall (V : Type) c (d : list (str * V)), NoDup (map fst d) -> dict_get c (rev d) = dict_get c d.
+Proof.
+  induction d as [|[k v] t IH]; intros N; [reflexivity|]. inversion N; subst. cbn [rev dict_get]. rewrite dict_get_app, IH by assumption.
+  destruct (str_eqb k c) eqn:E.
+  - apply str_eqb_eq in E. subst. rewrite (dict_get_notin _ c t H1). cbn [dict_get]. rewrite str_eqb_refl'. reflexivity.
+  - destruct (dict_get c t); [reflexivity|]. cbn [dict_get]. rewrite E. reflexivity.
+Qed.
+
+Definition style_blocks (styles : list (str * option str)) : list (str * str) :=
+  flat_map (fun cl => match snd cl with Some l => [(fst cl, l)] | None => [] end) styles.
+Definition lang_blocks (styles : list (str * option str)) (langs : list str) : list (str * str) :=
+  flat_map (fun l => match dict_get l styles with
+                     | Some (Some l') => if str_eqb l' l then [] else [(l, l)]
+                     | _ => [(l, l)]
+                     end) langs.
+
+Lemma style_blocks_keys : forall styles c, In c (map fst (style_blocks styles)) -> In c (map fst styles).
+Proof.
+  induction styles as [|[k [l|]] t IH]; intros c H; cbn [style_blocks flat_map fst snd app map] in *; [destruct H| |right; apply IH; exact H].
+  destruct H as [<-|H]; [left; reflexivity|right; apply IH; exact H].
+Qed.
+Lemma style_blocks_nodup : forall styles, NoDup (map fst styles) -> NoDup (map fst (style_blocks styles)).
+Proof.
+  induction styles as [|[k [l|]] t IH]; intros N; [constructor| |]; inversion N; subst; cbn [style_blocks flat_map fst snd app map].
+  - constructor; [intros C; apply H1; apply style_blocks_keys; exact C|apply IH; assumption].
+  - apply IH; assumption.
+Qed.
+Lemma style_blocks_get : forall styles c, NoDup (map fst styles) ->
+  dict_get c (style_blocks styles) = match dict_get c styles with Some (Some l) => Some l | _ => None end.
+Proof.
+  induction styles as [|[k [l|]] t IH]; intros c N; [reflexivity| |]; inversion N; subst;
+    cbn [style_blocks flat_map fst snd app dict_get]; fold (style_blocks t).
+  - destruct (str_eqb k c); [reflexivity|apply IH; assumption].
+  - destruct (str_eqb k c) eqn:E; [|apply IH; assumption].
+    apply str_eqb_eq in E. subst. apply dict_get_notin. intros C. apply H1. apply style_blocks_keys. exact C.
+Qed.
+
+Lemma lang_blocks_keys : forall styles langs c, In c (map fst (lang_blocks styles langs)) -> In c langs.
+Proof.
+  induction langs as [|l t IH]; intros c H; [destruct H|]. cbn [lang_blocks flat_map] in H. rewrite map_app, in_app_iff in H.
+  destruct H as [H|H]; [|right; apply IH; exact H].
+  destruct (dict_get l styles) as [[l'|]|]; [destruct (str_eqb l' l); [destruct H|]| |]; destruct H as [<-|[]]; left; reflexivity.
+Qed.
+Lemma lang_blocks_nodup : forall styles langs, NoDup langs -> NoDup (map fst (lang_blocks styles langs)).
+Proof.
+  induction langs as [|l t IH]; intros N; [constructor|]. inversion N; subst. cbn [lang_blocks flat_map]. rewrite map_app.
+  assert (T : NoDup (map fst (lang_blocks styles t))) by (apply IH; assumption).
+  destruct (dict_get l styles) as [[l'|]|]; [destruct (str_eqb l' l); [exact T|]| |]; cbn [map fst app];
+    (constructor; [intros C; apply H1; eapply lang_blocks_keys; exact C|exact T]).
+Qed.
+Lemma lang_blocks_get : forall styles langs c, In c langs ->
+  dict_get c (lang_blocks styles langs)
+  = match dict_get c styles with Some (Some l') => if str_eqb l' c then None else Some c | _ => Some c end.
+Proof. intros. revert H. induction langs as [|l t IH]; intros H; [destruct H|].
+  change (lang_blocks styles (l :: t)) with ((match dict_get l styles with
+    | Some (Some l') => if str_eqb l' l then [] else [(l, l)] | _ => [(l, l)] end) ++ lang_blocks styles t).
+  rewrite dict_get_app.
+  destruct (str_eqb l c) eqn:E.
+  - apply str_eqb_eq in E. subst l.
+    destruct (dict_get c styles) as [[l'|]|] eqn:D; [destruct (str_eqb l' c) eqn:E2| |]; cbn [dict_get]; rewrite ?str_eqb_refl'; try reflexivity.
+    (* the language's own block is not written (a style of that name declares it): later languages do not write it either *)
+    destruct (in_dec (list_eq_dec Z.eq_dec) c t) as [I|NI].
+    + rewrite (IH I). reflexivity.
+    + apply dict_get_notin. intros C. apply NI. eapply lang_blocks_keys. exact C.
+  - assert (Hc : In c t) by (destruct H as [H|H]; [subst; rewrite str_eqb_refl' in E; discriminate|exact H]).
+    assert (N1 : dict_get c (match dict_get l styles with
+                             | Some (Some l') => if str_eqb l' l then [] else [(l, l)]
+                             | _ => [(l, l)] end) = None).
+    { destruct (dict_get l styles) as [[l'|]|]; [destruct (str_eqb l' l)| |]; cbn [dict_get]; rewrite ?E; reflexivity. }
+    rewrite N1. apply IH. exact Hc.
+Qed.
+
+(* for every language l of the set: whatever class the caption carries, the class the (repaired) writer puts on the
+   paragraph resolves - through the stylesheet it writes, later blocks winning - to l.  Hypothesis: a style named like a
+   language of the set does not declare a DIFFERENT language (otherwise two blocks of one class name contradict) *)
+Theorem class_resolves : forall styles langs l cap_class,
+  NoDup (map fst styles) -> NoDup langs -> In l langs ->
+  (forall l0 l', In l0 langs -> dict_get l0 styles = Some (Some l') -> l' = l0) ->
+  resolve_class (p_class l cap_class styles) (sheet_langs styles langs) = Some l.
+Proof.
+  intros styles langs l cap_class Ns Nl Hl Hc.
+  assert (Res : forall c, resolve_class c (sheet_langs styles langs)
+                = match dict_get c (lang_blocks styles langs) with
+                  | Some v => Some v
+                  | None => match dict_get c styles with Some (Some l0) => Some l0 | _ => None end
+                  end).
+  { intros c. unfold resolve_class, sheet_langs. fold (style_blocks styles). fold (lang_blocks styles langs).
+    rewrite rev_app_distr, dict_get_app, !dict_get_rev by (apply lang_blocks_nodup || apply style_blocks_nodup; assumption).
+    rewrite style_blocks_get by exact Ns. reflexivity. }
+  assert (Own : resolve_class l (sheet_langs styles langs) = Some l).
+  { rewrite Res. pose proof (lang_blocks_get styles langs l Hl) as E. rewrite E.
+    destruct (dict_get l styles) as [[l'|]|] eqn:D; try reflexivity.
+    destruct (str_eqb l' l) eqn:E2; [|reflexivity]. apply str_eqb_eq in E2. subst. reflexivity. }
+  unfold p_class. destruct cap_class as [c|]; [|exact Own].
+  destruct (dict_get c styles) as [[l0|]|] eqn:D; try exact Own.
+  destruct (str_eqb l0 l) eqn:E; [|exact Own]. apply str_eqb_eq in E. subst l0.
+  rewrite Res, D.
+  destruct (in_dec (list_eq_dec Z.eq_dec) c langs) as [I|NI].
+  - pose proof (Hc c l I D). subst c. pose proof (lang_blocks_get styles langs l Hl) as E. rewrite E, D, str_eqb_refl'. reflexivity.
+  - rewrite dict_get_notin; [reflexivity|]. intros C. apply NI. eapply lang_blocks_keys. exact C.
+Qed.
